@@ -117,9 +117,9 @@ func (t *Tape) Weighted(w ...int) int {
 // Rand is a plain PRNG (not recorded) for bulk data such as payload bytes.
 type Rand struct{ t Tape }
 
-func NewRand(seed uint64) *Rand      { return &Rand{Tape{state: seed}} }
-func (r *Rand) Uint64() uint64       { return r.t.next64() }
-func (r *Rand) Intn(n int) int       { return int(r.t.next64() % uint64(n)) }
+func NewRand(seed uint64) *Rand          { return &Rand{Tape{state: seed}} }
+func (r *Rand) Uint64() uint64           { return r.t.next64() }
+func (r *Rand) Intn(n int) int           { return int(r.t.next64() % uint64(n)) }
 func (r *Rand) Chance(num, den int) bool { return int(r.t.next64()%uint64(den)) < num }
 func (r *Rand) Read(b []byte) {
 	for i := 0; i < len(b); i += 8 {
